@@ -55,7 +55,9 @@ RowPids(rows) == [k \in 1 .. Len(rows) |-> rows[k][7]]
 FirstRoot(rows) == IF \E k \in 1 .. Len(rows) : rows[k][7] = -1
                    THEN CHOOSE k \in 1 .. Len(rows) : rows[k][7] = -1 /\ \A j \in 1 .. k - 1 : rows[j][7] # -1
                    ELSE 1
-ResetIndex(rows) == LET b == rows[FirstRoot(rows)][1] IN
+\* ids are rebased on the smallest id (the root's, in a sorted file), so that no id can become the -1 marker
+MinId(rows) == CHOOSE m \in { rows[k][1] : k \in 1 .. Len(rows) } : \A k \in 1 .. Len(rows) : m <= rows[k][1]
+ResetIndex(rows) == LET b == MinId(rows) IN
                     [k \in 1 .. Len(rows) |-> [rows[k] EXCEPT ![1] = @ - b, ![7] = IF @ = -1 THEN -1 ELSE @ - b]]
 NRoots(rows) == Cardinality({ k \in 1 .. Len(rows) : rows[k][7] = -1 })
 
